@@ -1169,6 +1169,96 @@ def c11_urgent_data():
     return _urgent('urgent-data')
 
 
+# ---------------------------------------------------------------- C15: buffers handed in again; times kept exactly
+
+def c15_buffers_handed_in_again():
+    """copy(data=...) behaves like a fresh constructor EVERY time: a list or bytearray that was
+    accepted once and has been changed since is judged by what it holds now."""
+    mido = _mido()
+    import array
+    from mido.frozen import freeze_message
+    M, MM = mido.Message, mido.MetaMessage
+    out = []
+    for cls_label, src in (('Message', M('sysex', data=(1,))), ('FrozenMessage', freeze_message(M('sysex', data=(1,)))),
+                           ('MetaMessage', MM('sequencer_specific', data=(1,))),
+                           ('UnknownMetaMessage', mido.UnknownMetaMessage(0x60, data=(1,)))):
+        for mk in (lambda: [1, 2, 3], lambda: bytearray([1, 2, 3]), lambda: array.array('h', [1, 2, 3])):
+            buf = mk()
+            try:
+                a = src.copy(data=buf)
+                other = M('sysex', data=(9,)).copy(data=buf) if cls_label.endswith('Message') and 'Meta' not in cls_label else a
+                buf[1] = 100
+                b = src.copy(data=buf)
+            except Exception as e:
+                out.append(('buffer-again', '%s.copy(data=%s) raises %r' % (cls_label, type(buf).__name__, e)))
+                continue
+            if tuple(a.data) != (1, 2, 3) or tuple(b.data) != (1, 100, 3) or tuple(other.data) != (1, 2, 3):
+                out.append(('buffer-again', '%s.copy(data=<the same %s, changed in between>) gave %r then %r'
+                            % (cls_label, type(buf).__name__, tuple(a.data), tuple(b.data))))
+            # ... and refused when it holds something invalid now, like the constructor refuses it
+            bad = 200 if not isinstance(buf, array.array) else 300
+            try:
+                buf[0] = bad
+            except (ValueError, OverflowError):
+                continue
+            if cls_label in ('Message', 'FrozenMessage'):
+                try:
+                    M('sysex', data=buf)
+                    fresh_ok = True
+                except (ValueError, TypeError):
+                    fresh_ok = False
+                try:
+                    c = src.copy(data=buf)
+                    copy_ok = True
+                except (ValueError, TypeError):
+                    copy_ok = False
+                if copy_ok != fresh_ok:
+                    out.append(('buffer-again', "%s.copy(data=<a %s accepted before, now holding %d>) %s; Message('sysex', data=...) %s"
+                                % (cls_label, type(buf).__name__, bad, 'returned %s' % core.srepr(tuple(c.data)) if copy_ok else 'raises',
+                                   'accepts it' if fresh_ok else 'raises')))
+    return out[:3]
+
+
+def c15_times_kept_exactly():
+    """copy(time=t) equals a freshly constructed message with that time: the time is t itself - with
+    and without skip_checks, alone or with other overrides, for every class and their frozen twins."""
+    mido = _mido()
+    from fractions import Fraction
+    from mido.frozen import freeze_message, thaw_message
+    M, MM = mido.Message, mido.MetaMessage
+    out = []
+    times = [1 / 3, 0.1 + 0.2, 0.0010416666666666667, 1e-12, 123456.12345678912, -2 / 3, 5e-324, 1.0000000001, 2 ** 53 + 1.0,
+             Fraction(1, 3), 10 ** 30, True, float('inf')]
+    srcs = [M('note_on', note=5), M('sysex', data=(1, 2)), M('clock'), MM('set_tempo', tempo=5), MM('text', text='x'),
+            mido.UnknownMetaMessage(0x60, data=(1,))]
+    srcs += [freeze_message(m) for m in list(srcs)] + [thaw_message(freeze_message(srcs[0]))]
+    for src in srcs:
+        for t in times:
+            for kw in ({}, {'skip_checks': True}):
+                try:
+                    c = src.copy(time=t, **kw)
+                    c2 = src.copy(time=t, **dict(kw, **({'note': 6} if src.type == 'note_on' else {})))
+                except Exception as e:
+                    out.append(('time-kept', '%s.copy(time=%r, %r) raises %r' % (type(src).__name__, t, kw, e)))
+                    continue
+                for got in (c, c2):
+                    if not (got.time == t and type(got.time) is type(t)) or type(got) is not type(src):
+                        out.append(('time-kept', '%s %s .copy(time=%r%s) has time %r' % (type(src).__name__, src.type, t,
+                                    ', skip_checks=True' if kw else '', got.time)))
+                        break
+                if c.copy(time=src.time) != src:
+                    out.append(('time-kept', '%s: copy(time=%r) changed something else: %s' % (src, t, core.srepr(c))))
+        if src.time != 0:
+            out.append(('time-kept', 'the original changed'))
+    return out[:3]
+
+
+def c09_after_with_blocks():
+    """The default text encoding of the meta codec (latin1) is what encodes and decodes text outside a
+    MidiFile call - also after MidiFile objects were used as context managers."""
+    return c17_with_blocks()
+
+
 # ---------------------------------------------------------------- wiring
 
 def run(ctx, pid):
